@@ -45,11 +45,26 @@ def build(tier: str) -> List[Cond]:
                                           module="vf.h.c19", func="o_comb", shape=dict(kind=kind, seq=seq, npos=npos, glob=glob, none_size=none_size),
                                           sym=sym, pre=pre, timeout=t, functions=FUNCS,
                                           bounds=f"len {L}; size 1..{hi} symbolic (realised at itertools), modification positions symbolic"))
+    # state across calls and input forms, on the short sequences: the same peptide object expanded again and by another kind, the
+    # module-level function given the ProForma string
+    for seq in seqs[:2]:
+        L = len(seq)
+        for kind in KINDS:
+            for npos in (0, 1):
+                for glob in (False, True):
+                    hi = L + 1 if kind in ("permutations", "combinations") else L
+                    conds.append(Cond(oid=f"{kind}/{seq}/mods={npos}/glob={int(glob)}/again",
+                                      clause="a second expansion of the same peptide object, an expansion of another kind afterwards and the string input form give the same results",
+                                      module="vf.h.c19", func="o_comb", shape=dict(kind=kind, seq=seq, npos=npos, glob=glob, none_size=False, extra=True),
+                                      sym=[("size", "int")] + [(f"p{i}", "int") for i in range(npos)],
+                                      pre=[f"1 <= size <= {hi}"] + [f"0 <= p{i} < {L}" for i in range(npos)], timeout=t, functions=FUNCS,
+                                      bounds=f"len {L}; size symbolic"))
     return conds
 
 
 def run(tier: str, seed: int, only=None) -> Report:
-    conds = build(tier)
+    from ..ch import tier_conds
+    conds = tier_conds(build, tier, cap=200)
     if only:
         conds = [c for c in conds if only in c.oid]
     rep = Report(
